@@ -25,7 +25,10 @@ L1 = [dict(vec=False, rg=True)]
 def chain_families(sg, n, rec, dtype=np.float64):
     """Returns list of (name, expected grad of a, expected number of backward functions, observed...)."""
     out = []
-    for fam in ("chain_add", "chain_mul_const", "ladder", "fan", "wide"):
+    # *_twice / *_retained / *_retain_each: the measured call is a SECOND backward over the same deep chain - plain, with the
+    # intermediates still holding the gradients of the first call (built and differentiated inside retain_grads()), or
+    # after retain_grad() on every intermediate
+    for fam in ("chain_add", "chain_mul_const", "ladder", "fan", "wide", "chain_twice", "chain_retained", "chain_retain_each"):
         a = sg.Tensor(np.array(1.5, dtype=dtype), requires_grad=True)
         h = sg.Tensor(np.array(0.5, dtype=dtype))
         one = sg.Tensor(np.array(1.0, dtype=dtype))
@@ -35,6 +38,18 @@ def chain_families(sg, n, rec, dtype=np.float64):
             for _ in range(n):
                 x = x + a
             nf, want = n, float(n + 1)
+        elif fam in ("chain_twice", "chain_retained", "chain_retain_each"):
+            import contextlib
+            with (sg.retain_grads() if fam == "chain_retained" else contextlib.nullcontext()), repo.quiet():
+                for _ in range(n):
+                    x = x + a
+                    if fam == "chain_retain_each":
+                        x.retain_grad()
+                try:
+                    x.backward()
+                except BaseException as e:  # noqa: BLE001 - reported by the measured call below as a wrong gradient
+                    pass
+            nf, want = n, 2.0 * (n + 1)
         elif fam == "chain_mul_const":
             for _ in range(n):
                 x = x * one
